@@ -8,7 +8,7 @@ package database
 // the transaction exactly when the count reaches zero, i.e. when the last of the readers is closed.
 //@ func WithTxReadClosers$1
 //@ ensures[C36:counts-down-by-one] remaining == old(remaining) - 1
-//@ effect[C36:release-only-by-last-reader] every tx.Rollback(_) where remaining == 1
+//@ effect[C36:release-only-by-last-reader] every tx.Rollback(_) where old(remaining) == 1 && remaining == 0
 //@ ensures[C36:last-reader-releases] old(remaining) == 1 ==> called(tx.Rollback)
 
 // WithTxReadClosers: the error path and the no-reader path release the transaction before returning; otherwise the
